@@ -111,9 +111,18 @@ Qed.
 
 (** ** grow *)
 
+Lemma grow_eq ws wi : grow ws wi = ws ++ repeat 0 (Z.to_nat (wi + 1 - zlen ws)).
+Proof.
+  unfold grow. destruct (nthZ ws wi) as [w|] eqn:E; [|reflexivity].
+  apply nthZ_Some in E. destruct E as [H0 E].
+  assert (Z.to_nat wi < length ws)%nat by (apply nth_error_Some; congruence).
+  replace (Z.to_nat (wi + 1 - zlen ws)) with 0%nat by (unfold zlen; lia).
+  cbn [repeat]. rewrite app_nil_r. reflexivity.
+Qed.
+
 Lemma grow_length ws wi : zlen (grow ws wi) = Z.max (zlen ws) (wi + 1).
 Proof.
-  unfold grow, zlen. rewrite app_length, repeat_length. lia.
+  rewrite grow_eq. unfold zlen. rewrite app_length, repeat_length. lia.
 Qed.
 
 Lemma nth_error_repeat {A} (x : A) n i : (i < n)%nat -> nth_error (repeat x n) i = Some x.
@@ -125,9 +134,9 @@ Qed.
 Lemma grow_WInv P off ws wi : WInv P off ws -> WInv P off (grow ws wi).
 Proof.
   intros HW. constructor.
-  - unfold grow, words_ok. apply Forall_app. split; [apply HW|].
+  - rewrite grow_eq. unfold words_ok. apply Forall_app. split; [apply HW|].
     apply Forall_forall. intros x Hx. apply repeat_spec in Hx. subst. unfold word_ok. lia.
-  - intros i w b Hn Hb. unfold grow in Hn.
+  - intros i w b Hn Hb. rewrite grow_eq in Hn.
     destruct (Nat.lt_ge_cases i (length ws)) as [Hi|Hi].
     + rewrite nth_error_app1 in Hn by exact Hi. apply (wi_bits _ _ _ HW); assumption.
     + rewrite nth_error_app2 in Hn by exact Hi.
@@ -310,7 +319,7 @@ Proof.
       assert (N0 : nth_error ws' 0 = nth_error (grow (Words s) wi) 0).
       { apply OU. intros E0. apply Hne. apply (f_equal Z.of_nat) in E0.
         rewrite Z2Nat.id in E0 by exact Hwi. cbn in E0. lia. }
-      rewrite E in N0. cbn [nth_error] in N0. unfold grow in N0.
+      rewrite E in N0. cbn [nth_error] in N0. rewrite grow_eq in N0.
       destruct (Words s) as [|y t'] eqn:EW.
       - cbn [app] in N0.
         destruct (Z.to_nat (wi + 1 - zlen (@nil Z))) eqn:En; cbn [repeat nth_error] in N0; [discriminate|].
